@@ -50,7 +50,7 @@ chk('C15', 'exploration',
     'DESIGN.md 4/C15')
 chk('C01', 'model_checking',
     'For every catalogue design (all library blocks over the C07/C08/C09/C14 parameter grids, constants, latches, memories, hand-written-body and transpiled leaves, twin instances sharing a module name, block chains, fan-out) x placement (top, inside one or two structural wrappers): py4hw\'s Verilog is elaborated by the /verif Verilog engine and the product machine (py4hw simulator state x Verilog simulator state) is explored breadth-first from power-up with every input vector per step; all top-level outputs compared at power-up and after every cycle; closure of the product graph per design.',
-    'The Verilog engine (mc/vlog: IEEE 1364-2005 sizing/signedness, two-state, 0 power-up for uninitialised regs) is trusted base with its own self-tests; designs above 8 input bits use a corner alphabet (evidence says so); division/modulo by zero pruned; BidirBuf/multi-clock designs outside the subset.',
+    'The Verilog engine (mc/vlog: IEEE 1364-2005 sizing/signedness, two-state, 0 power-up for uninitialised regs) is trusted base with its own self-tests; designs above 8 input bits use a corner alphabet (evidence says so); division/modulo by zero pruned; BidirBuf designs are outside the subset; designs with a second clock domain gated from the system clock (GatedClock) are included.',
     'explicit-state model checking of the product of two implementations (simulator x interpreter of the emitted RTL)',
     'DESIGN.md 3, 4/C01')
 chk('C03', 'exploration',
